@@ -109,6 +109,16 @@ theorem zipFields_list_arity (nseq k : Nat) (a : Nat) (h : zipFieldsInit nseq (.
       rename_i h1 h2
       omega
 
+-- non-vacuity of `zip_value_lossless`: two results over the keys (a, b, zip) with contexts {a:5} and {a:5, b:7}
+def demoCol : List (ZItem Nat Int) :=
+  [⟨1, [some (.leaf 5), none, none]⟩, ⟨10, [some (.leaf 5), some (.leaf 7), none]⟩]
+example : ∀ it ∈ demoCol, WFD 3 it.ctx := by
+  intro it h
+  simp only [demoCol, List.mem_cons, List.mem_nil_iff, or_false] at h
+  rcases h with rfl | rfl <;> exact ⟨rfl, by simp [WFL, WF]⟩
+example : (zipCombine (fun i => i != 0) 3 2 none demoCol).map (fun v => (v.data, v.bare, v.recover 1)) =
+    some ([1, 10], false, [some (.leaf 5), some (.leaf 7), none]) := by decide +kernel
+
 example : zipFieldsInit 2 (.str 3) = .ok (some 3) := rfl
 example : zipFieldsInit 2 (.list 3) = .error .lenaTypeError := rfl
 
